@@ -26,8 +26,9 @@ namespace rkcommon {
                      size_t size);
 
      private:
-      // The underlying array from the fixed array being viewed, to keep
-      // the data alive for the view's lifetime
+      // A FixedArray sharing the allocation of the fixed array being viewed,
+      // to keep the data alive for the view's lifetime (also when the viewed
+      // FixedArray object is assigned to afterwards)
       std::shared_ptr<FixedArray<T>> data;
     };
 
@@ -37,7 +38,7 @@ namespace rkcommon {
     FixedArrayView<T>::FixedArrayView(std::shared_ptr<FixedArray<T>> &_data,
                                       size_t offset,
                                       size_t size)
-        : data(_data)
+        : data(std::make_shared<FixedArray<T>>(*_data))
     {
       AbstractArray<T>::setPtr(data->begin() + offset, size);
     }
